@@ -161,18 +161,14 @@ type res02 struct {
 	eff       []Op // the operations actually performed (illegal reopens skipped)
 	cut       int  // with a violation: the number of leading operations that produced it
 	sig       sigState
+	lastRoot  []byte // the root of the last successful commit
 	completed bool
 	badKnown  int          // failed CommitKnown attempts performed
 	faulted   map[int]bool // indices (in the case's ops) of the ops that returned the injected error and were retried
 	fired     int
 }
 
-func (r *res02) finalRoot() []byte {
-	if len(r.roots) == 0 {
-		return nil
-	}
-	return r.roots[len(r.roots)-1]
-}
+func (r *res02) finalRoot() []byte { return r.lastRoot }
 
 func (r *res02) term() string {
 	ops := "(@nil cop)"
@@ -391,9 +387,67 @@ func runC02(c Case) (res *res02) {
 		}
 		res.coqOps = append(res.coqOps, "CRem "+coqBytes(k))
 	}
+	// class "long": only the final commit goes to the model (the case stays small); the
+	// contents of every commit are still checked against the reference
+	lastCommit := -1
+	for i, o := range c.Ops {
+		if isCommit(o.K) {
+			lastCommit = i
+		}
+	}
+	toModel := func(i int) bool { return c.Class != "long" || i == lastCommit }
 	for i, o := range c.Ops {
 		at = i
 		switch o.K {
+		case "get":
+			v, err := tree.Get(ctx, nn(o.Key))
+			res.sig.scan(tree)
+			if err != nil {
+				fail("error", "unexpected error: op %d Get(%x): %v", i, o.Key, err)
+				return
+			}
+			rv, ok := res.ref[string(o.Key)]
+			switch {
+			case ok && v == nil:
+				fail("get-absent", "op %d: Get(%x) returned nil, the reference map holds %x", i, o.Key, rv)
+			case !ok && v != nil:
+				fail("get-present", "op %d: Get(%x) returned %x, the reference map does not hold the key", i, o.Key, v)
+			case ok && !bytes.Equal(v, rv):
+				fail("get-value", "op %d: Get(%x) returned %x, the reference map holds %x", i, o.Key, v, rv)
+			}
+		case "iter":
+			var got []kv
+			func() {
+				it := tree.NewIterator(ctx)
+				defer it.Close()
+				it.Seek(nn(o.Key))
+				for it.Valid() {
+					got = append(got, kv{nn(it.Key()), nn(it.Value())})
+					if len(got) >= o.N+1 {
+						break
+					}
+					it.Next()
+				}
+				err = it.Err()
+			}()
+			res.sig.scan(tree)
+			if err != nil {
+				fail("error", "unexpected error: op %d iterator: %v", i, err)
+				return
+			}
+			var want []kv
+			for _, k := range sortedKeys(res.ref) {
+				if bytes.Compare([]byte(k), o.Key) >= 0 && len(want) < o.N+1 {
+					want = append(want, kv{[]byte(k), res.ref[k]})
+				}
+			}
+			same := len(got) == len(want)
+			for j := 0; same && j < len(got); j++ {
+				same = bytes.Equal(got[j].k, want[j].k) && bytes.Equal(got[j].v, want[j].v)
+			}
+			if !same {
+				fail("iter", "op %d (iter seek %x n %d): got %s, the reference says %s", i, o.Key, o.N, showKVs(got), showKVs(want))
+			}
 		case "ins":
 			if err = attempt(i, o, func(cx context.Context) error { return tree.Insert(cx, nn(o.Key), nn(o.Val)) }); err != nil {
 				fail("error", "unexpected error: Insert: %v", err)
@@ -479,7 +533,9 @@ func runC02(c Case) (res *res02) {
 					fail("error", "unexpected error: Commit(version %d): %v", version, err)
 					return
 				}
-				res.coqOps = append(res.coqOps, "CCommit")
+				if toModel(i) {
+					res.coqOps = append(res.coqOps, "CCommit")
+				}
 			} else {
 				// learn the root with a hash-only commit, then commit against it
 				if _, h, err = tree.Commit(ctx, ns, version, mkvs.NoPersist()); err != nil {
@@ -490,7 +546,9 @@ func runC02(c Case) (res *res02) {
 					fail("error", "unexpected error: CommitKnown(version %d) with the root %x learnt by a NoPersist commit: %v", version, h[:], err)
 					return
 				}
-				res.coqOps = append(res.coqOps, "CCommitKnown "+coqBytes(h[:]))
+				if toModel(i) {
+					res.coqOps = append(res.coqOps, "CCommitKnown "+coqBytes(h[:]))
+				}
 				res.stats.add("commitknown", "ok")
 			}
 			lastRoot = node.Root{Namespace: ns, Version: version, Type: node.RootTypeState, Hash: h}
@@ -502,7 +560,10 @@ func runC02(c Case) (res *res02) {
 			}
 			version++
 			res.commits++
-			res.roots = append(res.roots, append([]byte{}, h[:]...))
+			if toModel(i) {
+				res.roots = append(res.roots, append([]byte{}, h[:]...))
+			}
+			res.lastRoot = append([]byte{}, h[:]...)
 			// the returned write log comes from a Go map: sort it
 			var lg []WLEntry
 			for _, le := range wl {
@@ -538,7 +599,9 @@ func runC02(c Case) (res *res02) {
 				fail("error", "unexpected error: dumping the tree committed at version %d: %v", version-1, err)
 				return
 			}
-			res.table.hash(d)
+			if toModel(i) {
+				res.table.hash(d)
+			}
 			res.internal = 0
 			res.dumpStr = dumpCoq(d, &res.internal)
 			justCommitted = true
@@ -546,7 +609,24 @@ func runC02(c Case) (res *res02) {
 			got := map[string][]byte{}
 			dumpContents(d, got)
 			if canonContents(got) != canonContents(res.ref) {
-				fail("commit-contents", "the tree committed at version %d holds %s, the reference map holds %s", version-1, showMap(got), showMap(res.ref))
+				if len(res.ref) > 16 {
+					miss, extra, diff := map[string][]byte{}, map[string][]byte{}, map[string][]byte{}
+					for k, v := range res.ref {
+						if gv, ok := got[k]; !ok {
+							miss[k] = v
+						} else if !bytes.Equal(gv, v) {
+							diff[k] = gv
+						}
+					}
+					for k, v := range got {
+						if _, ok := res.ref[k]; !ok {
+							extra[k] = v
+						}
+					}
+					fail("commit-contents", "the tree committed at version %d holds %d keys, the reference map %d: missing %s, not in the reference %s, different value %s", version-1, len(got), len(res.ref), showMap(miss), showMap(extra), showMap(diff))
+				} else {
+					fail("commit-contents", "the tree committed at version %d holds %s, the reference map holds %s", version-1, showMap(got), showMap(res.ref))
+				}
 			}
 		case "reopen":
 			if !justCommitted || e.ndb == nil {
@@ -667,6 +747,111 @@ func genC02(r *prng.R) Case {
 	c.UseLog = r.Chance(50)
 	c.Ops = genOps02(r, newKeygen(r), c.isDB(), longHistory(r, c))
 	return finish02(r, c)
+}
+
+// long cases whose final tree has more keys than this are not emitted as Coq cases
+const longCoqMaxKeys = 150
+
+// genLong: a large tree (150-400 keys) under a moderate node capacity and
+// unlimited value capacity on a database backend, driven by read-modify-write
+// rounds: [1-4 x (get or iterator read of k; insert / remove of the same k)],
+// commit, sometimes a reopen.
+func genLong(r *prng.R) Case {
+	c := Case{Mode: "c02", TwinOf: -1, Class: "long", UseLog: r.Chance(50)}
+	c.Backend = []string{"badger", "pathbadger"}[r.Intn(2)]
+	c.NodeCap = []uint64{16, 32, 64}[r.Intn(3)]
+	c.ValueCap = 0
+	g := newKeygen(r)
+	seen := map[string]bool{}
+	var pool [][]byte
+	for n := r.Range(150, 400); len(pool) < n; {
+		var k []byte
+		if r.Chance(20) {
+			k = g.short()
+		} else {
+			k = r.Bytes(r.Range(4, 12))
+		}
+		if !seen[string(k)] {
+			seen[string(k)] = true
+			pool = append(pool, k)
+		}
+	}
+	// the node capacity stays well above the deepest path of the pool (every later key is from
+	// the pool), so that eviction is forced but legitimate
+	if d := trieDepth(pool); c.NodeCap < uint64(d)+8 {
+		c.NodeCap = 32
+		if d+8 > 32 {
+			c.NodeCap = 64
+		}
+	}
+	for _, k := range pool {
+		c.Ops = append(c.Ops, Op{K: "ins", Key: k, Val: g.val()})
+	}
+	c.Ops = append(c.Ops, Op{K: "commit"})
+	for round, rounds := 0, r.Range(20, 120); round < rounds; round++ {
+		for j, m := 0, r.Range(1, 4); j < m; j++ {
+			k := pool[r.Intn(len(pool))]
+			if r.Chance(25) {
+				c.Ops = append(c.Ops, Op{K: "iter", Key: k, N: r.Intn(3)})
+			} else {
+				c.Ops = append(c.Ops, Op{K: "get", Key: k})
+			}
+			if r.Chance(25) {
+				c.Ops = append(c.Ops, Op{K: "rem", Key: k})
+			} else {
+				c.Ops = append(c.Ops, Op{K: "ins", Key: k, Val: g.val()})
+			}
+		}
+		c.Ops = append(c.Ops, Op{K: "commit"})
+		if r.Chance(20) {
+			c.Ops = append(c.Ops, Op{K: "reopen"})
+		}
+	}
+	return normalize02(c)
+}
+
+// genBigBatch: one large uncommitted batch with a failed CommitKnown in its
+// middle: [committed prefix], 16-48 inserts of new keys, CommitKnown with a
+// wrong root, 16-48 more inserts of new keys plus a few overwrites / removals,
+// commit, reopen. Ample capacities.
+func genBigBatch(r *prng.R) Case {
+	c := Case{Mode: "c02", TwinOf: -1, Class: "bigbatch", UseLog: r.Chance(50), NodeCap: 5000, ValueCap: 16777216}
+	c.Backend = "pathbadger"
+	if r.Chance(30) {
+		c.Backend = "badger"
+	}
+	g := newKeygen(r)
+	if r.Chance(50) {
+		for i, n := 0, r.Range(1, 10); i < n; i++ {
+			c.Ops = append(c.Ops, Op{K: "ins", Key: g.newKey(), Val: g.val()})
+		}
+		c.Ops = append(c.Ops, Op{K: "commit"})
+		if r.Chance(50) {
+			c.Ops = append(c.Ops, Op{K: "reopen"})
+		}
+	}
+	fresh := func() []byte {
+		if r.Chance(50) {
+			return g.note(r.Bytes(r.Range(3, 10)))
+		}
+		return g.newKey()
+	}
+	for i, n := 0, r.Range(16, 48); i < n; i++ {
+		c.Ops = append(c.Ops, Op{K: "ins", Key: fresh(), Val: g.val()})
+	}
+	c.Ops = append(c.Ops, badKnown(r))
+	for i, n := 0, r.Range(16, 48); i < n; i++ {
+		c.Ops = append(c.Ops, Op{K: "ins", Key: fresh(), Val: g.val()})
+		if r.Chance(10) {
+			c.Ops = append(c.Ops, Op{K: "ins", Key: g.used[r.Intn(len(g.used))], Val: g.val()})
+		}
+		if r.Chance(8) {
+			c.Ops = append(c.Ops, Op{K: "rem", Key: g.used[r.Intn(len(g.used))]})
+		}
+	}
+	c.Ops = append(c.Ops, commitOps(r)...)
+	c.Ops = append(c.Ops, Op{K: "reopen"})
+	return c
 }
 
 func otherConfig(r *prng.R, base Case) Case {
@@ -1047,7 +1232,12 @@ func (s *session02) process(c Case, base *Case, br *res02) (*res02, int) {
 	c = withFaulted(c, r)
 	s.sum.Evaluations++
 	idx := -1
-	if !r.panicked && (r.viol == nil || r.viol.kind != "error") {
+	emit := !r.panicked && (r.viol == nil || r.viol.kind != "error")
+	if c.Class == "long" && len(r.ref) > longCoqMaxKeys {
+		emit = false // too large for the quick model evaluation: implementation-side oracles only
+		s.sum.Count("class", "long_not_sent_to_model")
+	}
+	if emit {
 		idx = s.w.Total
 		s.w.Add(r.term(), c)
 	}
@@ -1057,6 +1247,15 @@ func (s *session02) process(c Case, base *Case, br *res02) (*res02, int) {
 	st.add("node_cap", fmt.Sprint(c.NodeCap))
 	st.add("value_cap", fmt.Sprint(c.ValueCap))
 	st.add("use_log", fmt.Sprint(c.UseLog))
+	if c.Class != "" {
+		st.add("class", c.Class)
+		if c.Class == "long" {
+			st.add("long_max_path_depth", fmt.Sprint(r.sig.maxDepth))
+			st.add("long_keys_final", bucket(len(r.ref), 100, 200, 300, 400))
+		}
+	} else {
+		st.add("class", "ordinary")
+	}
 	st.add("ops_per_case", bucket(len(c.Ops), 5, 15, 30, 60, 100))
 	st.add("final_size", bucket(len(r.ref), 0, 1, 3, 7, 15))
 	st.add("commits", bucket(r.commits, 1, 2, 4, 8))
@@ -1088,7 +1287,11 @@ func (s *session02) process(c Case, base *Case, br *res02) (*res02, int) {
 	}
 	if r.viol != nil {
 		vc, vr, note := c, r, ""
-		if key, mech := classify(c, r.sig.failF1, r.sig.failPrefix, r.sig.failDepth); key != "" {
+		key, mech := classify(c, r.sig.failF1, r.sig.failPrefix, r.sig.failDepth)
+		if c.Class == "long" {
+			key = "" // node capacity >= 16 with a path depth well below it, unlimited values: never a cache finding
+		}
+		if key != "" {
 			// evidence of the cache mechanism: the identical history is clean with ample capacities
 			ra := runC02(ample(c))
 			if ra.viol == nil {
@@ -1247,7 +1450,7 @@ func (s *session02) checkTwin(base Case, br *res02, twin Case, tr *res02) bool {
 
 func mainC02(seed uint64, n int, out string, rp *replayInput) {
 	s := &session02{
-		w: coqout.NewWriter(out, coqHeader, "run_c02", "c02_eqb", 20),
+		w: coqout.NewWriter(out, coqHeader, "run_c02", "c02_eqb", 12),
 		sum: coqout.NewSummary("seeded insert/remove/apply-write-log/commit/reopen histories (1-60 operations, keys of 0-4 bytes over {00,01,80,ff} plus long keys up to 64 bytes, values of 0-8 bytes) on the real tree over backends mem/badger/pathbadger with node capacities {0,1,2,3,8,16,32,5000} (long histories of 40-150 operations biased to new keys for about 20% of the cases) and value capacities {0,1,16,64,16M}, plus shuffle/detour/writelog twins of ~60% of the base cases; " +
 			"compared: every committed root hash and the shape dumped after the last commit; non-trivial = the final tree has at least one internal node; distinct = distinct final shape dumps among those"),
 		byContents: map[string]Case{}, rootOf: map[string]string{}, byRoot: map[string]Case{}, contentsOf: map[string]string{}, shapes: map[string]bool{}, sigOf: map[string]sigState{},
@@ -1274,10 +1477,18 @@ func mainC02(seed uint64, n int, out string, rp *replayInput) {
 	r := prng.New(seed).Fork()
 	for s.w.Total < n && s.sum.Evaluations < 2*n+10 {
 		cr := r.Fork()
-		base := genC02(cr)
+		var base Case
+		switch x := cr.Intn(100); {
+		case x < 4:
+			base = genLong(cr)
+		case x < 11:
+			base = genBigBatch(cr)
+		default:
+			base = genC02(cr)
+		}
 		br, bidx := s.process(base, nil, nil)
-		if bidx < 0 || br.viol != nil {
-			continue
+		if bidx < 0 || br.viol != nil || base.Class != "" {
+			continue // no twins of the special classes
 		}
 		if faultEligible(base) && cr.Chance(faultTwinPct) && s.w.Total < n {
 			twin := twinFault(cr, base)
